@@ -68,6 +68,12 @@ example : (∀ x ∈ [(C01_sampleChoices, C01_sampleInstr, true), (C01_sampleCho
   rcases hx with rfl | rfl | rfl <;>
     exact ⟨instrOK_of_b _ (by decide), choicesOK_of_b _ (by decide)⟩
 
+/-- white space other than the space character may stand INSIDE an argument written without
+    quotes (only `' '` separates tokens); at either end it would be trimmed, so quotes are
+    demanded there -/
+example : canUnquote ['a', '\u00a0', 'b'] = true ∧ canUnquote ['a', '\u3000'] = false ∧
+    canUnquote ['\u00a0', 'a'] = false ∧ canUnquote ['a', ' ', 'b'] = false := by decide
+
 /-- an instruction outside the domain (output variable containing `=`) is rejected by `InstrOK` -/
 example : ¬ InstrOK { output := some "a=b".toList, command := some "c".toList } := by
   intro h
